@@ -42,8 +42,11 @@ EXTRA = {
     "explanation": "contained / no_access_before_check / trace_inside / inside_loaded_normally / "
                    "outside_reported / noncanonical_root_refuses_all (Props/C17.lean) are proved for every "
                    "specification, source, symlink map, world and work-list over the abstract file system. "
-                   "PARTIAL in that the operating system is outside: FS.resolve is a specification of "
-                   "Path.resolve() that is compared with the real one on the scratch tree each run, not proved of it.",
+                   "The loader theorems hold for every resolver; the on-disk reading needs the resolver law "
+                   "'a fixpoint of resolve() is canonical', proved for the specified resolver (spec_resolver_lawful) and, "
+                   "for the faithful model of CPython 3.12's realpath, only on the branch that meets no symlink loop "
+                   "(py312_lawful_partial). PARTIAL in that, and in that the operating system is outside: both resolver "
+                   "models are compared with the real Path.resolve() on the scratch tree each run, not proved of it.",
     "trusted_base": [
         "abstract file system: pathlib.Path.resolve / is_dir / iterdir / open are modelled (FS.resolve is specified "
         "in Lean and compared with the real Path.resolve() on the scratch tree each run)",
@@ -766,15 +769,17 @@ def _api_cases(rng, T, tables, seed, fs, n, ops, pend, out, model_ok):
 
 
 def replay(rep):
-    """cases are regenerated from (seed, level, index): re-run that seed's stream and look at the same case"""
+    """cases are regenerated from (seed, level, index) alone (one PRNG per case; the scratch directory name
+    differs between runs, so specifications are not compared textually): re-run and look at the same case"""
     seed = int(rep.get("seed", 0))
     inp = rep.get("input") or {}
     if "index" not in inp:
         return False, "replay file has no input (no-failing-input-found): " + str(rep.get("broken"))[:300]
-    for tier in ("quick", "thorough"):
+    quick_n = {"function": 4000, "api": 500}.get(inp.get("level"), 0)
+    for tier in (("quick",) if inp["index"] < quick_n else ("thorough",)):
         o = run(tier, seed, model_ok=False, translator=common.translate())
         hit = [f for f in o.failures if f["input"].get("index") == inp["index"]
-               and f["input"].get("level") == inp.get("level") and f["input"].get("spec") == inp.get("spec")]
+               and f["input"].get("level") == inp.get("level")]
         if hit:
             return False, hit[0]["what"] + ": " + str(hit[0]["observed"])[:200]
     return True, "property holds on this input"
